@@ -227,8 +227,9 @@ class FnLower:
         if k in ('ParenExpr',):
             return '(' + self.rv(ks[0]) + ')'
         if k in ('ConstantExpr', 'SubstNonTypeTemplateParmExpr'):
-            if 'value' in n and not ks:
-                return str(n['value'])
+            if 'value' in n and (not ks or str(n['value']) in ('true', 'false') or re.fullmatch(r'-?\d+', str(n['value']))):
+                # an evaluated constant (e.g. the condition of `if constexpr`): clang's value is used
+                return {'true': '1', 'false': '0'}.get(str(n['value']), str(n['value']))
             return self.rv(ks[0])
         if k == 'ExprWithCleanups':
             self.push_frame()
